@@ -22,7 +22,7 @@ import (
 func init() {
 	Registry["C07"] = &Check{
 		Scenarios: c07Scenarios,
-		Rule: "schedules: W in {2,3} writer threads, 1-2 messages each with sizes from {200 B, 2 KiB, 5 KiB} (below/above the 1 KiB pooled serialisation buffer and the 4 KiB bufio buffer) written to one diam.Conn through Message.WriteTo, Conn.Write with caller-serialised bytes and Message.WriteToStreamWithRetry (rotating per writer and message) over an in-memory transport whose Write stalls between two pieces; every schedule up to the preemption bound (W=2: bound 2 quick / unbounded thorough; W=3: bound 2 / 3), happens-before state caching. faults: every sequence of write outcomes (bytes accepted k in {0,1,n/2,n-1,n} x {temporary - alternately a plain one and one that is also a timeout -, permanent, nil}) of length <= retries+1 for retries 0..3, and of length <=3 for the retry budgets 2^31, 2^32, 2^63, 2^64-2 and 2^64-1 (what a caller passes to mean 'keep retrying'), against writeRetry (io.Writer) and writeStreamRetry (MultistreamWriter), and through a diam.Conn over a faulting transport with two messages of sizes {200+2048, 5000+200, 200+5000, 4116+6000} (below and above the connection's 4 KiB write buffer): the wire must hold every message whose write returned nil, whole, once and in order, a failed write contributes a prefix of its message, and nothing may follow a torn message. stale-connection: a write to a connection that has ended, after a new connection was created, never reaches the new connection's transport. close-during-write: one writer (200 / 4096 / 5120 bytes) whose transport write stalls half way and an application goroutine closing the connection at every instant (preemption bound 3): the transport never receives more than a prefix of the message. sizes: every message size 32..8300 (multiples of four) through WriteTo / Conn.Write / WriteToWithRetry on a fault-free connection: the transport holds exactly the message as soon as the write has returned.",
+		Rule: "schedules: W in {2,3} writer threads, 1-2 messages each with sizes from {200 B, 2 KiB, 5 KiB} (below/above the 1 KiB pooled serialisation buffer and the 4 KiB bufio buffer) written to one diam.Conn through Message.WriteTo, Conn.Write with caller-serialised bytes and Message.WriteToStreamWithRetry (rotating per writer and message) over an in-memory transport whose Write stalls between two pieces; every schedule up to the preemption bound (W=2: bound 2 quick / unbounded thorough; W=3: bound 2 / 3), happens-before state caching. faults: every sequence of write outcomes (bytes accepted k in {0,1,n/2,n-1,n} x {temporary - alternately a plain one and one that is also a timeout -, permanent, nil}) of length <= retries+1 for retries 0..3, and of length <=3 for the retry budgets 2^31, 2^32, 2^63, 2^64-2 and 2^64-1 (what a caller passes to mean 'keep retrying'), against writeRetry (io.Writer) and writeStreamRetry (MultistreamWriter), and through a diam.Conn over a faulting transport with two messages of sizes {200+2048, 5000+200, 200+5000, 4116+6000} (below and above the connection's 4 KiB write buffer): the wire must hold every message whose write returned nil, whole, once and in order, a failed write contributes a prefix of its message, and nothing may follow a torn message. write-timeout: two writers on a connection served with WriteTimeout 800 ms over a transport that stalls the first write 600 ms and the second 400 ms (virtual clock, preemption bound 3): both succeed, both messages whole. stale-connection: a write to a connection that has ended, after a new connection was created, never reaches the new connection's transport. close-during-write: one writer (200 / 4096 / 5120 bytes) whose transport write stalls half way and an application goroutine closing the connection at every instant (preemption bound 3): the transport never receives more than a prefix of the message. sizes: every message size 32..8300 (multiples of four) through WriteTo / Conn.Write / WriteToWithRetry on a fault-free connection: the transport holds exactly the message as soon as the write has returned.",
 		Assume: []string{"data-race freedom between visible operations (audited separately with -race)", "the source rewriter and shims preserve Go semantics (shim unit tests)"},
 		QuickBudget: 100, ThoroughBudget: 1500,
 	}
@@ -75,6 +75,7 @@ func c07Scenarios(tier string) []*Scenario {
 	out = append(out, &Scenario{Name: "faults/through-conn", Seq: c07ConnFaults})
 	out = append(out, &Scenario{Name: "sizes/single-writer", Seq: c07Sizes})
 	out = append(out, &Scenario{Name: "stale-connection-write", Seq: c07StaleConn})
+	out = append(out, c07WriteTimeout(3))
 	for _, size := range []int{200, 4096, 5120} {
 		out = append(out, c07CloseDuringWrite(size, 3))
 	}
@@ -590,6 +591,73 @@ func c07CloseDuringWrite(size int, bound int) *Scenario {
 	}
 	return &Scenario{Name: fmt.Sprintf("close-during-write/%d-bytes", size), Body: body, Check: check, Bound: bound, Horizon: 5 * time.Second,
 		Outcome: func(s *vs.Sched) string { return fmt.Sprint(len(c07cw.conn.Out), c07cw.err != nil) }}
+}
+
+// c07WriteTimeout: a connection accepted by a Server with WriteTimeout 800 ms; the transport
+// stalls the first write 600 ms and the second 400 ms (virtual clock). Two application goroutines
+// write one message each at the same time. Each write, taken alone, stays inside its timeout -
+// the time a writer spends queued behind the other is not part of its write: both messages
+// arrive whole, both writes succeed.
+var c07wt struct {
+	conn *vnet.Conn
+	errs [2]error
+	done [2]bool
+}
+
+func c07WriteTimeout(bound int) *Scenario {
+	mA, mB := c07msg(0, 0, 384), c07msg(1, 0, 384)
+	bA, _ := mA.Serialize()
+	bB, _ := mB.Serialize()
+	body := func() {
+		st := &c07wt
+		st.errs, st.done = [2]error{}, [2]bool{}
+		conn := vnet.NewConn("S")
+		conn.Pieces = 1
+		conn.WriteDelays = []time.Duration{600 * time.Millisecond, 400 * time.Millisecond}
+		st.conn = conn
+		var dc diam.Conn
+		lis := vnet.NewListener()
+		mux := diam.NewServeMux()
+		mux.HandleFunc("ALL", func(c diam.Conn, m *diam.Message) {
+			dc = c
+			vs.Touch(conn, "conn-known")
+		})
+		srv := &diam.Server{Handler: mux, Dict: dict.Default, WriteTimeout: 800 * time.Millisecond}
+		hello, _ := diam.NewMessage(280, 0x80, 0, 5, 5, dict.Default).Serialize()
+		conn.Deliver(hello)
+		lis.Offer(vnet.AcceptItem{Conn: conn})
+		vs.GoNamed("serve", false, func() { srv.Serve(lis) })
+		for i, m := range []*diam.Message{mA, mB} {
+			i, m := i, m
+			vs.GoNamed(fmt.Sprintf("writer%d", i), false, func() {
+				vs.BlockObj("wait-conn", conn, func() bool { return dc != nil })
+				_, st.errs[i] = m.WriteTo(dc)
+				st.done[i] = true
+			})
+		}
+	}
+	check := func(s *vs.Sched) string {
+		st := &c07wt
+		var v []string
+		for i := range st.errs {
+			if !st.done[i] {
+				v = append(v, fmt.Sprintf("writer %d never returned", i))
+			} else if st.errs[i] != nil {
+				v = append(v, fmt.Sprintf("writer %d got %v although its own transport write stalled for less than WriteTimeout (the time it spent queued behind the other writer was charged to it)", i, st.errs[i]))
+			}
+		}
+		out := st.conn.Out
+		ab, ba := append(append([]byte{}, bA...), bB...), append(append([]byte{}, bB...), bA...)
+		if !bytes.Equal(out, ab) && !bytes.Equal(out, ba) {
+			v = append(v, fmt.Sprintf("the transport received %d bytes that are not the two messages back to back (%d expected)", len(out), len(ab)))
+		}
+		for _, p := range s.Panics() {
+			v = append(v, "panic: "+p)
+		}
+		return strings.Join(v, " | ")
+	}
+	return &Scenario{Name: "write-timeout/two-writers-queued-behind-a-slow-transport", Body: body, Check: check, Bound: bound, Horizon: 5 * time.Second,
+		Outcome: func(s *vs.Sched) string { return fmt.Sprint(c07wt.errs, len(c07wt.conn.Out)) }}
 }
 
 // c07StaleConn: a connection whose peer has gone away is followed by a new connection; a goroutine
